@@ -203,7 +203,10 @@ def run(ctx, known, built):
     out = os.path.join(ctx.scratch, "c16")
     os.makedirs(out)
     corpus = sorted(glob.glob(os.path.join(VERIF, "corpus", "C16", "*.json")))
+    import time
+    t0 = time.time()
     rc, o = sh([ctx.harness, "c16", "--tier", ctx.tier, "--seed", str(ctx.seed), "--out", out] + corpus, timeout=3000)
+    ctx.timings["harness_run"] = round(time.time() - t0, 1)
     if rc != 0:
         ctx.disagreements.append({"what": "harness c16 failed", "output": o[-2000:]})
         return
@@ -255,7 +258,9 @@ def run(ctx, known, built):
         ctx.disagreements.append({"what": "Coq development does not build; correspondence not evaluated"})
         res = {}
     else:
+        t1 = time.time()
         res = ctx.coq_eval_many(files, timeout=2400)
+        ctx.timings["model_evaluation"] = round(time.time() - t1, 1)
     ok_shards = 0
     ndis = [0]
 
